@@ -14,6 +14,7 @@ CHECKS = {
     "C37": "activeusers",
     "C38": "engineids",
     "C31": "methodsave",
+    "C39": "archive",
 }
 
 MC = "model_checking"
@@ -114,4 +115,10 @@ CLAIMS = {
             "version + 1 per accept, returned version, and that every save completes.",
             "Trusted: fake dispatcher rpc_call; an interleaving answering a request the implementation has not forwarded is skipped.",
             "6.7, 7 C31"),
+    "C39": (EXP, "TLA+ table model Archive.tla (rectangular; TLC) and ArchiveTrace.tla comparing, row by row, what the real "
+                 "ArchiverTag wrote with what is read back using the archiver's own csv dialect",
+            "Archives of 1-3 rows with Mark texts (single, and several joined by the Mark separator) and a text tag drawn from a "
+            "hostile pool (delimiter, escape character, quote, newline, carriage return, tab, unicode, empty); every row must be "
+            "one record with exactly the header's columns and unchanged values; a failure is named by the hostile class involved.",
+            "Thin oracle (equality after read-back); level exploration. Virtual clock inside the archiver module.", "7 C39"),
 }
